@@ -9,7 +9,25 @@ import json, os, re, sys, glob
 
 ROOT = '/verif'
 
+def first_pass():
+    """what the checks said when the seed was first tried (before the checks were strengthened)"""
+    import ast
+    out = {}
+    for fn, only in [('matrix_2_all_seeds_after_round1_strengthening.log', None), ('matrix_1_round1_seeds_first_checks.log', None)]:
+        pth = ROOT + '/seeded/history/' + fn
+        if not os.path.exists(pth):
+            continue
+        for l in open(pth):
+            m = re.match(r"(C\d\d-\d) detected by (\[.*?\])", l)
+            if m:
+                out[m.group(1)] = ast.literal_eval(m.group(2))
+    return out
+
+def first_sentence(summ):
+    return summ.split('. ')[0][:140].replace('|', '/').replace('`', "'") + ' …'
+
 def matrix():
+    first = first_pass()
     rows = []
     for d in sorted(glob.glob(ROOT + '/seeded/C??-?')):
         name = os.path.basename(d)
@@ -22,13 +40,19 @@ def matrix():
         others = [x for x in det if not x.startswith(prop + ' ')]
         summ = agent.get('summary', '')
         summ = re.sub(r'\s+', ' ', summ)
-        first = summ.split('. ')[0][:150]
         files = ', '.join(os.path.basename(f) for f in agent.get('files_changed', []))
-        rows.append((name, files, first, val, ', '.join(own) if own else '—', ', '.join(others) if others else ''))
-    print('| seed | file | change (first sentence of the author\'s summary) | own check | other checks that also report it |')
+        fp = first.get(name)
+        if fp is None:
+            fps = '?'
+        else:
+            o2 = [x for x in fp if x.startswith(prop + ' ')]
+            fps = ', '.join(o2) if o2 else ('only ' + ', '.join(fp) if fp else 'missed')
+        first = first  # keep name
+        rows.append((name, files, first_sentence(summ), val, ', '.join(own) if own else '—', ', '.join(others) if others else '', fps))
+    print('| seed | file | change (start of the author\'s summary) | when first tried | now |')
     print('|---|---|---|---|---|')
     for r in rows:
-        print(f'| {r[0]} | {r[1]} | {r[2]} | {r[4]} | {r[5]} |')
+        print(f'| {r[0]} | {r[1]} | {r[2]} | {r[6]} | {r[4]}{(" (+ " + r[5] + ")") if r[5] else ""} |')
     n = len(rows)
     own = sum(1 for r in rows if r[4] != '—')
     anyc = sum(1 for r in rows if r[4] != '—' or r[5])
